@@ -23,7 +23,10 @@ result: true / false / raises -- a key function may map a value to 0, "", () ...
 compared), `pre` (the earlier life of the class family: instances of the ancestor with its own generated ordering, of
 a sibling, of the subclass have been compared before C's instances ever are; classes are built afresh per `pre`),
 `redef` on an own field (the base class defines the same field with other cmp/eq/order arguments and C overrides it;
-only honoured when ordering is requested explicitly for C, so that the base's definition never applies to C).
+only honoured when ordering is requested explicitly for C, so that the base's definition never applies to C),
+`opts` per field, own or inherited (kw_only, init=False, alias, repr, hash, metadata, converter / validator present,
+default value / factory: none of them is ordering's business -- the order tuple stays in field order with the same
+participants and keys; instances are built through whatever __init__ results, init=False fields set behind it).
 
 Observed: the class-level call's error kind, the fields whose attr.ib() raised ValueError, where each of the
 four methods of C comes from (attrs-generated in C / user's / inherited attrs-generated / object's), the
@@ -54,7 +57,9 @@ RULE = ("cases = class-level (api x cmp x eq x order x auto_detect x own orderin
         "frozen explicit/inherited x slots, and 30% of the random block: earlier values compared and sorted, then changed); "
         "class families (block: 5 front-end settings x 8 pre-comparison orders of ancestor/sibling/subclass x base ordered x "
         "inherited/own field counts x key shapes, with overriding redefinitions), truthiness of key results (block: 7 key shapes "
-        "x {true,false,raises}^2 per operand), and both as random decoration of every other block; field names permuted; non-trivial = class built, ordering generated, and "
+        "x {true,false,raises}^2 per operand), field options that must not matter (block: kw_only/init/alias/repr/hash/metadata/converter/"
+        "validator/default singly and mixed x first/second/inherited/all fields x 3 front-ends, fields disagreeing in direction), "
+        "all three as random decoration of every other block; field names permuted; non-trivial = class built, ordering generated, and "
         "(other-class operand or at least one value comparison performed); distinct = distinct JSON case")
 ASSUMPTIONS = [
     "the values' reflected comparisons agree (yv > xv is xv < yv, yv == xv is xv == yv), as Python's data model asks: y-side scripted values answer with the mirror of the script; the trace records which value was compared with == / an ordering operator, not by which side",
@@ -64,7 +69,7 @@ ASSUMPTIONS = [
     "exception classes (auto_exc) and field redefinition in subclasses are not varied here (C14 / C07)",
 ]
 EXHAUSTIVE = {"quick": False, "thorough": False}
-BUDGET_S = {"quick": 40, "thorough": 380}
+BUDGET_S = {"quick": 34, "thorough": 380}
 TABLES = ["attrsKw", "defineKw"]
 PARALLEL = True
 
@@ -210,8 +215,77 @@ def _field_kwargs(f):
     return kw
 
 
+def _ident(v):
+    return v
+
+
+def _no_check(inst, a, v):
+    return None
+
+
+def _opt_kwargs(f):
+    """field options that have nothing to do with ordering (harness-only `opts`): the order tuple must stay in
+    field order with the same participants whatever these are"""
+    o = f.get("opts") or {}
+    kw = {}
+    if o.get("kw_only"):
+        kw["kw_only"] = True
+    if o.get("init") is False:
+        kw["init"] = False
+    if o.get("alias"):
+        kw["alias"] = "al_" + f["name"]
+    if o.get("repr") is False:
+        kw["repr"] = False
+    if o.get("hash") is not None:
+        kw["hash"] = bool(o["hash"])
+    if o.get("metadata"):
+        kw["metadata"] = {"k": f["name"]}
+    if o.get("converter"):
+        kw["converter"] = _ident
+    if o.get("validator"):
+        kw["validator"] = _no_check
+    if o.get("default") == "value":
+        kw["default"] = None
+    elif o.get("default") == "factory":
+        kw["factory"] = list
+    return kw
+
+
+def _new(K, vals):
+    """an instance of the attrs class K holding vals[name] in every field, whatever the __init__ signature is
+    (aliases, keyword-only, init=False fields are then set behind the instance)"""
+    kw, later = {}, {}
+    for a in attr.fields(K):
+        if a.init:
+            kw[a.alias] = vals[a.name]
+        else:
+            later[a.name] = vals[a.name]
+    inst = K(**kw)
+    for n, v in later.items():
+        object.__setattr__(inst, n, v)
+    return inst
+
+
+def _norm_opts(fields):
+    """attrs refuses a mandatory positional __init__ argument after one with a default: walking C's field order
+    (inherited first), every positional init field after the first defaulted one gets a default too, so that any
+    combination of `opts` (also after shrinking) is a definable class"""
+    out = {}
+    had = False
+    for f in [g for g in fields if g["inBase"]] + [g for g in fields if not g["inBase"]]:
+        o = dict(f.get("opts") or {})
+        if not o.get("kw_only") and o.get("init") is not False:
+            if had and not o.get("default"):
+                o["default"] = "value"
+            if o.get("default"):
+                had = True
+        out[f["name"]] = o
+    return [dict(f, opts=out[f["name"]]) for f in fields]
+
+
 def _mk_field(f, cfg):
     kw = _field_kwargs(f)
+    kw.update(_opt_kwargs(f))
     if "cmp" in kw or cfg.get("maker", "attrib") == "attrib":
         return attr.ib(**kw)
     return attrs.field(**kw)
@@ -296,7 +370,7 @@ def build(case):
     cfg = case.get("cfg", {})
     key = (case["api"], case["cmp"], case["eq"], case["order"], case["autoDetect"], tuple(case["own"]),
            case["baseOrdered"], case["subOrdered"], _nobase(case),
-           tuple((f["name"], f["cmp"], f["eq"], f["order"], f["inBase"], str(f.get("redef"))) for f in case["fields"]),
+           tuple((f["name"], f["cmp"], f["eq"], f["order"], f["inBase"], str(f.get("redef")), str(sorted((f.get("opts") or {}).items()))) for f in case["fields"]),
            tuple(sorted((k, str(v)) for k, v in cfg.items() if k != "nobase")),
            tuple(case.get("pre") or ()))
     got = _CLASS_CACHE.get(key)
@@ -311,6 +385,14 @@ def build(case):
 
 
 def _build(case, cfg):
+    case = dict(case, fields=_norm_opts(case["fields"]))
+    if cfg.get("frozen") or cfg.get("frozen_base") or \
+            (case["api"] in ALIASES and _alias(case["api"], cfg)[2].get("frozen")):
+        # frozen dict classes below a slotted frozen base cannot read inherited fields back on the pinned tree
+        # (known finding K3 of C01/C08/C10; a validator makes even __init__ fail): frozen families are built
+        # uniformly slotted or uniformly dict-based
+        uniform = cfg.get("slots") if cfg.get("slots") is not None else case["api"] == "define"
+        cfg = dict(cfg, slots=uniform, base_slots=uniform)
     fields = case["fields"]
     field_errs = []
     for f in fields:
@@ -405,7 +487,7 @@ def _throwaway_pair(K):
     for n in _field_names(K) or []:
         p = {"same": False, "s": _NE}
         vx[n], vy[n] = _mk_values({"name": n, "raw": p, "ek": p, "ok": p})
-    return K(**vx), K(**vy)
+    return _new(K, vx), _new(K, vy)
 
 
 def _pre_compare(pre, Base, C, D):
@@ -419,7 +501,7 @@ def _pre_compare(pre, Base, C, D):
         elif who == "sib":
             if Base is object:
                 continue
-            K = attr.s(order=True)(type("Sib", (Base,), {"zz": attr.ib()}))
+            K = attr.s(order=True)(type("Sib", (Base,), {"zz": attr.ib(default=None)}))
         else:
             K = C
         if K is object or _field_names(K) is None:
@@ -543,7 +625,12 @@ def _transform(inst, kind, cur):
                 warnings.simplefilter("ignore")
                 return attr.assoc(inst, **changes)
         if kind == "evolve":
-            return attr.evolve(inst, **changes)
+            flds = attr.fields(type(inst))
+            twin = attr.evolve(inst, **{a.alias: cur[a.name] for a in flds if a.init})
+            for a in flds:
+                if not a.init:
+                    object.__setattr__(twin, a.name, cur[a.name])
+            return twin
         twin = copy.copy(inst)
     except BaseException:  # noqa: BLE001
         twin = inst
@@ -596,17 +683,17 @@ def _observe(case):
                     yb[n] = Yb
 
     def make(vals):
-        x = C(**vals[0])
+        x = _new(C, vals[0])
         if rhs == "same":
-            y = C(**vals[1])
+            y = _new(C, vals[1])
         elif rhs == "identical":
             y = x
         elif rhs == "sub":
-            y = D(**vals[1])
+            y = _new(D, vals[1])
         elif rhs == "super":
-            y = Base(**{n: vals[1][n] for n in _field_names(Base)})
+            y = _new(Base, vals[1])
         else:
-            y = F(**vals[1]) if fk == "twin" else object() if fk == "object" else 5 if fk == "int" else None
+            y = _new(F, vals[1]) if fk == "twin" else object() if fk == "object" else 5 if fk == "int" else None
         return x, y
 
     x, y = make((xb, yb))
@@ -685,6 +772,7 @@ def dist(case, obs):
         "falsy_keys": sum(1 for f in case["fields"] if f.get("truth") and any(
             v != "T" for side in f["truth"].values() for k, v in side.items() if k != "raw")),
         "redef": sum(1 for f in case["fields"] if f.get("redef")),
+        "opts": "+".join(sorted({k for f in case["fields"] for k, v in (f.get("opts") or {}).items()})) or "-",
         "hist_who": (case.get("hist") or {}).get("who"),
         "frozen": bool(cfg.get("frozen") or cfg.get("frozen_base")),
         "residue": len(o.get("residue", [])),
@@ -854,18 +942,34 @@ REDEFS = [{"cmp": "unset", "eq": "unset", "order": "unset"}, {"cmp": "unset", "e
           {"cmp": "key", "eq": "unset", "order": "unset"}, {"cmp": "unset", "eq": "f", "order": "unset"}]
 
 
+OPT_SINGLES = [{"kw_only": True}, {"init": False}, {"init": False, "default": "value"}, {"alias": True}, {"repr": False},
+               {"hash": False}, {"hash": True}, {"metadata": True}, {"converter": True}, {"validator": True},
+               {"default": "value"}, {"default": "factory"}, {"kw_only": True, "default": "factory", "alias": True}]
+
+
+def _rand_opts(rng):
+    """per-field options that must not influence which fields are compared, through which key, in which order"""
+    o = dict(rng.choice(OPT_SINGLES))
+    for k, v in (("kw_only", True), ("alias", True), ("repr", False), ("metadata", True), ("converter", True),
+                 ("validator", True)):
+        if rng.random() < 0.15:
+            o[k] = v
+    return o
+
+
 def _rand_truth(rng):
     """what bool() does on the raw value and on the key results of each operand's value"""
     return {side: {k: rng.choice(TRUTHS) for k in ("raw", "ek", "ok")} for side in ("x", "y")}
 
 
-def _decorate(rng, c, p_truth=0.35, p_pre=0.3, p_redef=0.3):
+def _decorate(rng, c, p_truth=0.35, p_pre=0.3, p_redef=0.3, p_opts=0.3):
     """harness-only dimensions of a case: truthiness of values / key results, earlier comparisons in the class
     family, base-class definitions that C overrides"""
     fs = []
     for f in c["fields"]:
         f = dict(f)
         f["truth"] = _rand_truth(rng) if rng.random() < p_truth else None
+        f["opts"] = _rand_opts(rng) if rng.random() < p_opts else None
         f["redef"] = None
         if not f["inBase"] and rng.random() < p_redef:
             r = rng.choice(REDEFS)
@@ -1009,6 +1113,8 @@ def _gen_operands(tier, rng):
                 for sub_ord in (False, True):
                     for own in ([], ["lt"], ["gt", "ge"]):
                         for ad in ("unset", "t"):
+                            if tier == "quick" and rng.random() < 0.5:
+                                continue
                             for _ in range(reps):
                                 k = rng.choice([1, 2, 3])
                                 fields = [_rand_field(rng, NAMES[i], eq_bias=0.45) for i in range(k)]
@@ -1017,7 +1123,7 @@ def _gen_operands(tier, rng):
 
 
 def _gen_random(tier, rng):
-    n = 2500 if tier == "quick" else 600000
+    n = 2000 if tier == "quick" else 600000
     for _ in range(n):
         malformed = rng.random() < 0.12
         k = rng.choice([1, 2, 3, 3, 4, 5])
@@ -1075,8 +1181,8 @@ def _gen_family(tier, rng):
     for cls in (("attrS", "unset", "unset", "t"), ("attrS", "unset", "unset", "unset"), ("define", "unset", "unset", "t"),
                 ("makeClass", "unset", "unset", "t"), ("attrS", "t", "unset", "unset")):
         for pre in PRES:
-            for base_ord in (True, True, False):
-                for nb in (0, 1, 2):
+            for base_ord in ((True, False) if tier == "quick" else (True, True, False)):
+                for nb in ((0, 1) if tier == "quick" else (0, 1, 2)):
                     for sh in shapes:
                         for _ in range(reps):
                             bias = rng.choice([0.5, 0.8])
@@ -1089,6 +1195,39 @@ def _gen_family(tier, rng):
                             _decorate(rng, c, p_truth=0.2, p_pre=0.0, p_redef=0.5)
                             c["pre"] = list(pre)
                             yield c
+
+
+LESS = {"eq": "F", "lt": "T", "le": "T", "gt": "F", "ge": "F"}
+MORE = {"eq": "F", "lt": "F", "le": "F", "gt": "T", "ge": "T"}
+
+
+def _gen_opts(tier, rng):
+    """field options that are none of ordering's business (kw_only, init, alias, repr, hash, metadata, converter,
+    validator, default), one at a time and mixed, on the first / a later / an inherited field, with instances
+    whose fields disagree in direction (one field says less, the next says greater)"""
+    reps = 1 if tier == "quick" else 8
+    shapes = [{}, {"order": "key"}, {"eq": "key"}]
+    for opt in OPT_SINGLES + [None, None, None]:
+        for place in ("first", "second", "inherited", "all"):
+            for cls in (("attrS", "unset", "unset", "unset"), ("define", "unset", "unset", "t"), ("makeClass", "unset", "unset", "t")):
+                for _ in range(reps):
+                    k = rng.choice([2, 2, 3])
+                    sh = rng.choice(shapes)
+                    fields = [_plain_field(rng, NAMES[i], eq_bias=0.1, **(sh if rng.random() < 0.4 else {})) for i in range(k)]
+                    up = rng.random() < 0.5
+                    for i, f in enumerate(fields):
+                        sc = LESS if (i % 2 == 0) == up else MORE
+                        for view in ("raw", "ek", "ok"):
+                            f[view] = {"same": False, "s": dict(sc)}
+                    if place == "inherited":
+                        fields[0]["inBase"] = True
+                    c = _case(rng, fields, rhs=rng.choice(["same", "same", "same", "sub"]), cls=cls, block="opts",
+                              baseOrdered=rng.random() < 0.3, subOrdered=rng.random() < 0.4)
+                    _decorate(rng, c, p_truth=0.1, p_pre=0.15, p_redef=0.1, p_opts=0.0)
+                    for i, f in enumerate(c["fields"]):
+                        hit = place == "all" or (i == 1 if place == "second" else i == 0)
+                        f["opts"] = (dict(opt) if opt is not None else _rand_opts(rng)) if hit else None
+                    yield c
 
 
 def _gen_truth(tier, rng):
@@ -1114,6 +1253,7 @@ def gen_cases(tier, rng):
     yield from _gen_class_table(tier, rng)
     yield from _gen_field_table(tier, rng)
     yield from _gen_positions(tier, rng)
+    yield from _gen_opts(tier, rng)
     yield from _gen_operands(tier, rng)
     yield from _gen_history(tier, rng)
     yield from _gen_family(tier, rng)
@@ -1141,7 +1281,7 @@ def shrink(case):
         for i in range(len(case["pre"])):
             yield dict(case, pre=case["pre"][:i] + case["pre"][i + 1:])
     for i, f in enumerate(fs):
-        for k in ("truth", "redef"):
+        for k in ("truth", "redef", "opts"):
             if f.get(k):
                 yield dict(case, fields=fs[:i] + [dict(f, **{k: None})] + fs[i + 1:])
     h = case.get("hist")
@@ -1194,6 +1334,9 @@ def neighbours(case, rng):
         yield dict(case, pre=list(pre), rhs="same")
     for _ in range(6):
         yield dict(case, fields=[dict(f, truth=_rand_truth(rng)) for f in fs], rhs="same")
+    for opt in OPT_SINGLES:
+        for i, f in enumerate(fs):
+            yield dict(case, fields=fs[:i] + [dict(f, opts=dict(opt))] + fs[i + 1:], rhs="same")
     for i, f in enumerate(fs):
         for _ in range(4):
             g = dict(f, raw=_rand_pair(rng), ek=_rand_pair(rng), ok=_rand_pair(rng), nat=None)
@@ -1224,6 +1367,7 @@ LEVEL_TEXT = (
     "stream, background variation (slots, frozen, aliases, annotated fields, decorator reuse), and histories (instances compared "
     "before with other values, then key results / fields changed behind them or via assoc/evolve/copy; nothing may be left on the "
     "instances or classes), class-family histories (ancestor/sibling/subclass compared first; overriding redefinitions), and "
-    "falsy / bool()-raising key results. CPython's tuple comparison and "
+    "falsy / bool()-raising key results, per-field options unrelated to ordering (kw_only, init, alias, repr, hash, metadata, "
+    "converter, validator, default; own and inherited fields). CPython's tuple comparison and "
     "rich-comparison dispatch are modelled as small functions and observed, not proved; values' reflected comparisons are assumed "
     "to agree (y-side scripted values answer with the mirror script). Exception classes (auto_exc) and redefined fields are not varied.")
